@@ -316,9 +316,24 @@ func botTable(r *rand.Rand, st *acStats, hid int, hands int, snapsOut *[]*pokert
 // ----- (2) player runner: auto-play -----
 
 func playerCase(snap *pokertable.Table, playerID string, status int, actionTime int, wait bool, levelUp bool) string {
+	return playerCaseLate(snap, nil, playerID, status, actionTime, wait, levelUp)
+}
+
+// playerCaseLate: as playerCase; when late is given, that snapshot — of an *earlier* hand in which the same player was
+// asked something — is delivered right after the current one (updates reach an actor from several goroutines): it is
+// stale and must change nothing about what the runner does for the current hand
+func playerCaseLate(snap, late *pokertable.Table, playerID string, status int, actionTime int, wait bool, levelUp bool) string {
 	t := safeClone(snap)
 	if t == nil {
 		return ""
+	}
+	var lt *pokertable.Table
+	if late != nil {
+		lt = safeClone(late)
+		if lt == nil {
+			return ""
+		}
+		lt.Meta.ActionTime = actionTime
 	}
 	t.Meta.ActionTime = actionTime
 	if levelUp && t.State.BlindState != nil {
@@ -347,6 +362,10 @@ func playerCase(snap *pokertable.Table, playerID string, status int, actionTime 
 	}
 	t0 := time.Now()
 	ad.UpdateTableState(t)
+	if lt != nil {
+		time.Sleep(20 * time.Millisecond)
+		ad.UpdateTableState(lt)
+	}
 	immediate := ad.take()
 	res := "none"
 	delay := int64(0)
@@ -371,7 +390,7 @@ func playerCase(snap *pokertable.Table, playerID string, status int, actionTime 
 		}
 	}
 	statusName := []string{"running", "idle", "suspend"}[status]
-	return fmt.Sprintf("ac player status=%s atime=%d waited=%s lvlup=%s st=%s gi=%d %s | call=%s delay_ms=%d\n", statusName, actionTime, b01(wait), b01(levelUp), statusShort(t.State.Status), gi, v, res, delay)
+	return fmt.Sprintf("ac player status=%s atime=%d waited=%s lvlup=%s late=%s st=%s gi=%d %s | call=%s delay_ms=%d\n", statusName, actionTime, b01(wait), b01(levelUp), b01(lt != nil), statusShort(t.State.Status), gi, v, res, delay)
 }
 
 // ----- (3) observer runner and the real adapter -----
@@ -475,8 +494,54 @@ func observerCase(r *rand.Rand, snap *pokertable.Table, status pokertable.TableS
 			out = "nogame"
 		}
 	}
-	return fmt.Sprintf("ac observe sys=%s st=%s actors=%d %s | %s engine_same=%s others_same=%s distinct=%s\n", b01(system), statusShort(status), nActors,
+	line := fmt.Sprintf("ac observe sys=%s st=%s actors=%d %s | %s engine_same=%s others_same=%s distinct=%s\n", b01(system), statusShort(status), nActors,
 		inPriv, out, b01(before == after), b01(othersSame), b01(distinct))
+	// an observer that was in system mode when the snapshot came, is downgraded, and only then gets a listener: whatever
+	// that listener is handed (nothing, on today's code) is what a non-system observer sees
+	if r.Intn(3) == 0 {
+		et := safeClone(snap)
+		if et != nil {
+			et.State.Status = status
+			a := actor.NewActor()
+			a.SetAdapter(actor.NewTableEngineAdapter(nil, et))
+			ob := actor.NewObserverRunner()
+			ob.EnabledSystemMode(true)
+			a.SetRunner(ob)
+			a.GetTable().UpdateTableState(et)
+			ob.EnabledSystemMode(false)
+			shown := "none"
+			ob.OnTableStateUpdated(func(t *pokertable.Table) {
+				if t != nil && t.State.GameState != nil {
+					shown = privStr(t.State.GameState)
+				} else {
+					shown = "nogame"
+				}
+			})
+			line += fmt.Sprintf("ac observe-late st=%s %s | %s\n", statusShort(status), inPriv, shown)
+		}
+	}
+	return line
+}
+
+// earlierAsk: a snapshot of an earlier hand (another game id, older state) in which the same player is asked something
+func earlierAsk(snaps []*pokertable.Table, cur *pokertable.Table, playerID string) *pokertable.Table {
+	if cur.State.GameState == nil {
+		return nil
+	}
+	var best *pokertable.Table
+	for _, sn := range snaps {
+		g := sn.State.GameState
+		if g == nil || g.GameID == cur.State.GameState.GameID || g.UpdatedAt >= cur.State.GameState.UpdatedAt ||
+			sn.State.Status != pokertable.TableStateStatus_TableGamePlaying {
+			continue
+		}
+		gi := sn.GamePlayerIndex(playerID)
+		if gi < 0 || gi >= len(g.Players) || len(g.Players[gi].AllowedActions) == 0 {
+			continue
+		}
+		best = sn // the latest such
+	}
+	return best
 }
 
 // pickPlayer: a participant of the snapshot's hand, preferably one the hand is asking something of
@@ -743,10 +808,14 @@ func runActor(args []string) {
 			pl := pickPlayer(r, s)
 			status := r.Intn(3)
 			wg2.Add(1)
-			go func(k int, s *pokertable.Table, pl string, status int) {
+			var late *pokertable.Table
+			if k%3 == 0 {
+				late = earlierAsk(snaps, s, pl)
+			}
+			go func(k int, s, late *pokertable.Table, pl string, status int) {
 				defer wg2.Done()
-				timed[k] = playerCase(s, pl, status, 1, true, k%2 == 0)
-			}(k, s, pl, status)
+				timed[k] = playerCaseLate(s, late, pl, status, 1, true, k%2 == 0)
+			}(k, s, late, pl, status)
 		}
 		wg2.Wait()
 		for _, l := range timed {
